@@ -1070,11 +1070,18 @@ pub fn get_limit(params: &EntityParams, prepared_query: &mut SingleQuery) -> Str
         match skip {
             FieldValue::Variable(var) => {
                 let vars = prepared_query.add_param(String::from(var), false);
+                if query.is_empty() {
+                    //OFFSET is only valid after a LIMIT
+                    query.push_str("LIMIT -1");
+                }
                 query.push_str(&format!(" OFFSET {}", vars));
             }
             FieldValue::Value(val) => {
                 let val = val.as_i64().unwrap();
                 if val != 0 {
+                    if query.is_empty() {
+                        query.push_str("LIMIT -1");
+                    }
                     query.push_str(&format!(" OFFSET {}", val));
                 }
             }
